@@ -101,6 +101,27 @@ def term_stamp(cx):
         cx.check(ok, "stamp:" + v, "a %s leaves send() only after `m.term := self.term`" % v, push)
 
 
+@obligation("MSG.priority_stamp", ["C10", "C03"], floor=3, kind="must-pass-through per message type",
+            why="voters compare the candidate's priority with their own when logs are equally long; a vote or pre-vote request that does not carry it is refused by every voter with a positive priority, and nobody is ever elected")
+def priority_stamp(cx):
+    send = cx.fn("RaftCore::send")
+    g = cx.pg(send)
+    a = cx.prog.A(send)
+    pushes = [s for s in cx.prog.call_sites_of("alloc::vec::Vec::push") if s.fn is send]
+    cx.need(pushes, "Vec::push in RaftCore::send")
+    push = pushes[0]
+    mobj = call_args(cx, push)[1]
+    blocks = set()
+    for s in cx.prog.writes.get("Message.priority", []):
+        if s.fn is send and s.kind == "write" and "stmt" in s.data and is_f(a.expr_rvalue(s.data["stmt"]["rv"], s.at), "RaftCore.priority"):
+            blocks.add(s.block)
+    cx.check(bool(blocks), "site", "send() stamps m.priority := self.priority")
+    mt = ("field", mobj, "Message.msg_type")
+    for v in ("MsgRequestVote", "MsgRequestPreVote"):
+        ok = bool(blocks) and g.dominated_by_block(push.at, lambda b: b in blocks, assume=[("in", mt, frozenset([v]), MT)])
+        cx.check(ok, "stamp:" + v, "a %s leaves send() only after `m.priority := self.priority`" % v, push)
+
+
 @obligation("MSG.heartbeat.commit_cap", ["C01", "C04", "C05", "C13"], floor=1, kind="value shape",
             why="a follower whose tail diverges beyond `matched` would commit it on a heartbeat")
 def heartbeat_cap(cx):
